@@ -495,3 +495,98 @@ events_network_shutdown(void)
 	socketlist_free(S);
 	S = NULL;
 }
+
+#ifdef LIBCPERCIVA_VERIF
+#include <stdio.h>
+
+int events_network_verif_check(char *, size_t);
+void events_network_verif_state(size_t *, size_t *);
+
+/**
+ * events_network_verif_check(why, whylen):
+ * Verification hook: evaluate the invariants listed at the top of this file
+ * (number 6 in the form "revents != 0 ==> j <= fdscanpos", since the slot
+ * being scanned may still hold the other direction's bit).  Return 0 if they
+ * hold; otherwise write a description into ${why} and return the number of
+ * the first invariant which is violated.  Must only be called at quiescent
+ * points (not from inside this file's functions).
+ */
+int
+events_network_verif_check(char * why, size_t whylen)
+{
+	struct socketrec * sr;
+	size_t i, j;
+
+	if (S == NULL)
+		return (0);
+	for (j = 0; j < nfds; j++) {
+		if ((fds[j].fd < 0) ||
+		    ((size_t)fds[j].fd >= socketlist_getsize(S)) ||
+		    (socketlist_get(S, (size_t)fds[j].fd)->pollpos != j)) {
+			snprintf(why, whylen, "inv1: fds[%zu].fd=%d does not "
+			    "point back", j, fds[j].fd);
+			return (1);
+		}
+		if (fds[j].revents & (POLLIN | POLLOUT) & (~fds[j].events)) {
+			snprintf(why, whylen, "inv5: fds[%zu] events=%x "
+			    "revents=%x", j, (unsigned)fds[j].events,
+			    (unsigned)fds[j].revents);
+			return (5);
+		}
+		if ((fds[j].revents != 0) && (j > fdscanpos)) {
+			snprintf(why, whylen, "inv6: fds[%zu].revents=%x "
+			    "above fdscanpos=%zu", j,
+			    (unsigned)fds[j].revents, fdscanpos);
+			return (6);
+		}
+	}
+	for (i = 0; i < socketlist_getsize(S); i++) {
+		sr = socketlist_get(S, i);
+		if (sr->pollpos != (size_t)(-1)) {
+			if ((sr->pollpos >= nfds) ||
+			    (fds[sr->pollpos].fd != (int)i)) {
+				snprintf(why, whylen, "inv1: S[%zu].pollpos="
+				    "%zu bad", i, sr->pollpos);
+				return (1);
+			}
+		}
+		if (((sr->reader != NULL) || (sr->writer != NULL)) &&
+		    (sr->pollpos >= nfds)) {
+			snprintf(why, whylen, "inv2: S[%zu] registered but "
+			    "pollpos=%zu nfds=%zu", i, sr->pollpos, nfds);
+			return (2);
+		}
+		if ((sr->reader == NULL) && (sr->writer == NULL)) {
+			if (sr->pollpos != (size_t)(-1)) {
+				snprintf(why, whylen, "inv3: S[%zu] idle but "
+				    "pollpos=%zu", i, sr->pollpos);
+				return (3);
+			}
+			continue;
+		}
+		if (((sr->reader != NULL) !=
+			((fds[sr->pollpos].events & POLLIN) != 0)) ||
+		    ((sr->writer != NULL) !=
+			((fds[sr->pollpos].events & POLLOUT) != 0))) {
+			snprintf(why, whylen, "inv4: S[%zu] reader=%d "
+			    "writer=%d events=%x", i, sr->reader != NULL,
+			    sr->writer != NULL,
+			    (unsigned)fds[sr->pollpos].events);
+			return (4);
+		}
+	}
+	return (0);
+}
+
+/**
+ * events_network_verif_state(nfds_out, fdscanpos_out):
+ * Verification hook: report the number of pollfd entries and the scan cursor.
+ */
+void
+events_network_verif_state(size_t * nfds_out, size_t * fdscanpos_out)
+{
+
+	*nfds_out = (S == NULL) ? 0 : nfds;
+	*fdscanpos_out = (S == NULL) ? 0 : fdscanpos;
+}
+#endif /* LIBCPERCIVA_VERIF */
